@@ -48,6 +48,8 @@ STAGES = {
             S("structured", "^TestC03$", quick=1500, thorough=10000, shards=(4, 16)),
             S("raw", "^TestC03Raw$", quick=8000, thorough=60000, shards=(4, 16))],
     "C04": [S("cuts", "^TestC04$", quick=40, thorough=60, shards=(6, 16), timeout=("15m", "120m"), shrinktime="60s")],
+    "C05": [S("concurrent", "^TestC05$", quick=150, thorough=2500, shards=(6, 16), timeout=("15m", "90m")),
+            S("concurrent-race", "^TestC05$", quick=40, thorough=800, shards=(4, 16), race=True, timeout=("15m", "90m"))],
     "C06": [S("codes", "^TestC06$", shards=(8, 16)),
             S("mixed", "^TestC06Mixed$", quick=3000, thorough=20000, shards=(2, 16))],
     "C19": [S("reads", "^TestC19$", quick=2500, thorough=15000, shards=(3, 16)),
